@@ -30,6 +30,26 @@ var commonAssumptions = []string{
 func allChecks() []CheckSpec {
 	return []CheckSpec{
 		{
+			ID: "C18",
+			Harnesses: []HarnessSpec{
+				{Fn: "verifC18IPv6Filter", Lemma: "isSupportedIPv6Partial and shouldFilterLocationTrackedIP equal independent bit-pattern predicates (IPv4-compatible ::/96, site-local fec0::/10; link-local fe80::/10, ff?2::/16)",
+					Bounds: "all 2^128 addresses (16 symbolic bytes)", MustReach: []string{"done"}},
+				{Fn: "verifC18LocalInterfaces", Lemma: "localInterfaces on a fake transport.Net returns exactly the eligible addresses (interface up, loopback setting, interface/IP filters, requested family with empty = all, not site-local); enumeration errors propagate",
+					Bounds: "1 (quick) / 2 (thorough) interfaces with symbolic up/loopback flags, one IPv4 (10.0.i.x or 127.0.0.x, x symbolic) and one IPv6 address (first two bytes symbolic) each, 5 network-type lists incl. empty, interface filter none/eth0, IP filter rejecting one symbolic last byte", MustReach: []string{"done"}},
+				{Fn: "verifC18PortRange", Lemma: "listenUDPInPortRange: bound port inside [min,max] and free; never tries a port outside the range; ErrPort only after every port of the range was tried exactly once and all were busy; min>max rejected without listening; no range => one ephemeral listen; unavailable-address errors abort",
+					Bounds: "range width 1..3 (thorough 1..4) at any base 1..60000, every busy/free/unavailable pattern, any random start", MustReach: []string{"defaults", "inverted", "bound", "exhausted", "unavailable", "done"}},
+				{Fn: "verifC18GatherHost", Lemma: "gatherCandidatesLocal (UDP host path) on the fake net: a host candidate is published for an address iff it is eligible and not link-local (mDNS gather mode publishes link-local ones under the mDNS name); ports inside the range; mDNS name instead of the IP in gather mode; every opened socket adopted or closed",
+					Bounds: "1 interface (IPv4 + IPv6 address, symbolic bytes/flags), 4 network-type lists incl. empty, loopback flag, IP filter, 2 mDNS modes, 3-port range at a symbolic base", MustReach: []string{"done"}},
+				{Fn: "verifC18Cycle", Lemma: "GatherCandidates is refused unless the state is New (and needs a handler), cancels the previous cycle; setGatheringState of a cancelled cycle changes and emits nothing, a live one emits exactly one nil candidate on the edge into Complete; Restart cancels the cycle and returns to New",
+					Bounds: "all gathering states, handler present/absent, cancelled/live context, both target states", MustReach: []string{"refused", "started", "cancelled-cycle", "complete", "done"}},
+			},
+			Assumptions: append([]string{
+				"transport.Net is a fake (interfaces, ListenUDP outcomes per port); randutil Intn = any value in range; context package executed as real code; taskloop.Run by contract",
+				"the gather goroutine itself is not run in verifC18Cycle (cycle overlap under real concurrency is outside)",
+			}, commonAssumptions...),
+			Outside: "srflx/relay candidate contents (network I/O), TCP mux host candidates, UDP mux path, continual gathering, overlap of cycles under real concurrency",
+		},
+		{
 			ID: "C12",
 			Harnesses: []HarnessSpec{
 				{Fn: "verifC12Sequence", Lemma: "sequential operation sequences on the real UDPMuxDefault (GetConn, write through a handle, inbound datagram through the real connWorker, RemoveConnByUfrag, handle Close, mux Close) against a reference routing table (owner by canonical address = last writer, connections by ufrag): every inbound datagram grows exactly the reference's destination queue by one byte-identical packet with the true source, no other queue changes; first-contact STUN is routed by the USERNAME prefix only to that ufrag's connection of the source's family; per-connection FIFO; address map and per-connection lists agree with canonical keys; removed/closed connections receive nothing and own no binding",
